@@ -63,6 +63,7 @@ class Index:
         self.loop_exceptions: list = []
         self.cancels: list = []
         self.unclosed_transports: list = []
+        self.post_close_timers: list = []
         cur_conn: str | None = None
         open_ops: dict = {}
         pending_frames: dict = {}  # fd -> list of (end, name)
@@ -155,6 +156,8 @@ class Index:
                 self.loop_exceptions.append((seq, d))
             elif kind == "cancel_sent":
                 self.cancels.append((seq, d["actor"], d["i"]))
+            elif kind == "post_close_timers":
+                self.post_close_timers.append((seq, d["conn"], d["timers"], turn, t))
             elif kind == "tr_del_unclosed":
                 self.unclosed_transports.append((seq, d))
         self.open_ops = list(open_ops.values())
